@@ -87,6 +87,7 @@ METH_CONT_WRITE = set('append extend insert remove clear update add discard'.spl
 METH_MAP = set('map_overlap map_blocks'.split())
 FUNC_MAP = set('dask.array.map_blocks dask.array.map_overlap dask.array.overlap.map_overlap'.split())
 
+WIDEST_DTYPES = {'np.float64', 'numpy.float64', 'float', "'float64'", "'f8'", 'np.double'}
 ATTR_FRESH = set('''shape dtype ndim size dims name chunks chunksize nbytes itemsize type kind flags real imag
 __name__ __class__ columns index ndarray max min'''.split())
 ATTR_DATA = set('data values'.split())           # the array buffer of a raster (ndarray: the memoryview of itself)
@@ -731,7 +732,10 @@ class FState(object):
                         ast.dump(v.func.value.value) == ast.dump(t.value):
                     if v.func.attr == 'rechunk':
                         kind = 'rechunk'
-                    elif v.func.attr == 'astype' and not any(k.arg == 'copy' for k in v.keywords):
+                    elif v.func.attr == 'astype' and not any(k.arg == 'copy' for k in v.keywords) and \
+                            len(v.args) == 1 and ast.unparse(v.args[0]) in WIDEST_DTYPES:
+                        # every supported raster dtype except 64-bit integers above 2**53 is exactly representable in
+                        # float64; a cast to anything narrower (or computed) may change values: an ordinary data write
                         kind = 'widen'
             self.write(base, kind, node, what, objects=True)
         else:
@@ -1615,8 +1619,11 @@ def _mk_base(rng, dtype, layout, kind):
         if kind == 'izones' and dtype.startswith('float'):
             dtype = 'int32'
         vals = np.array([[1 + (r * 2 // shape[0]) * 2 + (c * 2 // shape[1]) for c in range(shape[1])] for r in range(shape[0])])
-    elif kind == 'terrain':
+    elif kind in ('terrain', 'bigterrain'):
         vals = np.array([[rng.randint(0, 60) for c in range(shape[1])] for r in range(shape[0])])
+        if kind == 'bigterrain' and np.dtype(dtype).itemsize >= 4 and not dtype == 'float32':
+            # elevations above 2**24 (odd, so not exactly representable in float32): e.g. millimetres
+            vals = vals * 2 + 20000351
     else:
         vals = np.array([[rng.randint(0, 5) for c in range(shape[1])] for r in range(shape[0])])
     order = 'F' if layout == 'F' else 'C'
@@ -1799,12 +1806,16 @@ def _registry():
         'proximity.direction': one('proximity', 'direction', raster='raster',
                                    extra=lambda r, v: {'target_values': [[1], [2, 3]][v], 'max_distance': [np.inf, 4.0][v]}, variants=2),
         'pathfinding.a_star_search': one('pathfinding', 'a_star_search', raster='surface',
-                                         extra=lambda r, v: {'start': (10.0, 0.0), 'goal': (0.0, 12.0), 'barriers': [[], [0]][v],
-                                                             'snap_start': bool(v), 'snap_goal': bool(v)}, variants=2, backends=['numpy']),
+                                         # variant 2: every cell is a barrier, so the start is non crossable and not snapped
+                                         extra=lambda r, v: {'start': (10.0, 0.0), 'goal': (0.0, 12.0),
+                                                             'barriers': [[], [0], [0, 1, 2, 3, 4, 5]][v],
+                                                             'snap_start': v == 1, 'snap_goal': v == 1}, variants=3, backends=['numpy']),
         'perlin.perlin': one('perlin', 'perlin', extra=lambda r, v: {'seed': 3 + v}, variants=2, out='own'),
         'terrain.generate_terrain': one('terrain', 'generate_terrain', extra=lambda r, v: {'seed': 3 + v}, out='own'),
-        'viewshed.viewshed': one('viewshed', 'viewshed', raster='raster', extra=lambda r, v: {'x': 4.0 + 2 * v, 'y': 6.0, 'observer_elev': 3.0},
-                                 variants=2, backends=['numpy'], kind='terrain'),
+        'viewshed.viewshed': dict(one('viewshed', 'viewshed', raster='raster',
+                                      extra=lambda r, v: {'x': 4.0 + 2 * (v % 2), 'y': 6.0, 'observer_elev': 3.0},
+                                      variants=4, backends=['numpy'], kind='terrain'),
+                                  kinds=lambda v: {'raster': 'bigterrain' if v >= 2 else 'terrain'}),
         'zonal.regions': one('zonal', 'regions', raster='raster', extra=lambda r, v: {'neighborhood': [4, 8][v]}, variants=2, backends=['numpy']),
         'zonal.trim': one('zonal', 'trim', raster='raster', extra=lambda r, v: {'values': [(0,), (0, 1), (np.nan,)][v]}, variants=3,
                           backends=['numpy'], out='window'),
@@ -1861,7 +1872,9 @@ def _observe(case):
     rng = random.Random(case['dataseed'])
     rasters = {}
     bases = {}
+    kinds = ent['kinds'](case['variant']) if 'kinds' in ent else {}
     for (p, kind) in ent['rasters']:
+        kind = kinds.get(p, kind)
         rasters[p], bases[p] = _mk_raster(rng, case['dtype'], case['layout'], case['backend'], kind, name=p,
                                           attrs_kind=case.get('attrs', 'res'))
     extra = ent['extra'](rng, case['variant'])
@@ -2026,6 +2039,11 @@ HARD_CASES = [
     ('pathfinding.a_star_search', 'numpy', 'float64', 'C', 0, 'nores'),
     ('proximity.proximity', 'dask', 'int32', 'C', 1, 'nores'),
     ('convolution.calc_cellsize', 'numpy', 'float64', 'C', 0, 'empty'),
+    # viewshed may widen the dtype "without changing a value": integer elevations above 2**24
+    ('viewshed.viewshed', 'numpy', 'int32', 'C', 2, 'res'), ('viewshed.viewshed', 'numpy', 'int64', 'F', 3, 'nores'),
+    ('viewshed.viewshed', 'numpy', 'uint32', 'view', 2, 'res'),
+    # a_star_search starting on a non crossable cell without snapping: the all-NaN result keeps the identity
+    ('pathfinding.a_star_search', 'numpy', 'float64', 'C', 2, 'res'), ('pathfinding.a_star_search', 'numpy', 'int16', 'view', 2, 'nores'),
 ]
 
 
